@@ -1,13 +1,12 @@
 SPECIFICATION Spec
 CONSTANTS
-  N = 4
+  N = 3
   InitUp = 2
-  MaxFaults = 4
+  MaxFaults = 3
   FaultKinds = {"add", "remove", "unlist", "stop", "start", "restart", "droppooled", "dropctrl", "dropall", "mute"}
-  Hosts = {"h1", "h2", "h3", "h4"}
+  Hosts = {"h1", "h2", "h3"}
   FirstHost = "h1"
   TimerStoppedOnClose = FALSE
-  EventsBlockRefresh = FALSE
-INVARIANTS RefreshNotBlockedByEvents SomeoneServes ExpectedExcludesUnlisted QuiescentConverged ExportInv
-PROPERTY Settles
+  EventsBlockRefresh = TRUE
+INVARIANTS RefreshNotBlockedByEvents
 CHECK_DEADLOCK FALSE
